@@ -411,3 +411,21 @@ def pair_sessions(rep, seed, rounds):
     if r["differ"] or r["bad"]:
         rep.violation("pair:differ", "a session writes different bytes (or reads wrong objects) when other sessions run in "
                       "the same process at the same time: %s" % r.get("first", r), r)
+
+
+def big_stream(rep):
+    """Positions beyond 2^32: 4106 x 1 MiB of (compressible) text objects and then a default-constructed object of every
+    class are written through File and read back (native threads): every object comes back, in order, with its class."""
+    exes = vlib.build("plain", ["drv_native"])
+    nd = os.path.join(vlib.WORK, "native")
+    os.makedirs(nd, exist_ok=True)
+    results, other, rc, err = vlib.run_driver(exes["drv_native"], ["big", nd, 0, 0], timeout=600)
+    if rc != 0 or not results:
+        rep.violation("big:crash", "4 GiB session: driver failed or did not end rc=%s %s" % (rc, err[-300:].replace("\n", " | ")), dict(rc=rc))
+        return
+    r = results[0]
+    rep.cov["evaluations"] += r["objects"]
+    rep.cov["big_stream_objects"] = r["objects"]
+    if r["bad"] or r["objects"] != r["expected"]:
+        rep.violation("big:objects", "a stream longer than 4 GiB: %d of %d objects read back, %d wrong (%s)"
+                      % (r["objects"], r["expected"], r["bad"], r.get("first", "")), r)
